@@ -125,6 +125,15 @@ class Unit:
 
     def apply_rewrites(self, text):
         text = self.rewrite_assert_macros(text)
+        # R16 (built in): array destructuring `let [a, b, ..] = E;` -> indexed lets (slice patterns unsupported)
+        def destr(mt):
+            self.rewrite_counts['R16'] = self.rewrite_counts.get('R16', 0) + 1
+            names = [n.strip() for n in mt.group(1).split(',') if n.strip()]
+            out = 'let w__ = %s;' % mt.group(2)
+            for k, n in enumerate(names):
+                out += ' let %s = w__[%d];' % (n, k)
+            return out
+        text = re.sub(r'let \[((?:\s*\w+\s*,?)+)\] = ([^;]+);', destr, text)
         # R11 (built in): fold `<lit>_<uN>.pow(<lit>)` integer-literal powers to a literal
         def fold(mt):
             self.rewrite_counts['R11'] = self.rewrite_counts.get('R11', 0) + 1
@@ -341,9 +350,12 @@ class Unit:
                         # end of the function body, before a trailing expression is not supported:
                         # inserted after the last statement terminator ';' or '}' of the body
                         stripped = bm.rstrip()
-                        if not (stripped.endswith(';') or stripped.endswith('}')):
+                        if stripped.endswith('Ok(())'):
+                            at = len(stripped) - len('Ok(())')
+                        elif not (stripped.endswith(';') or stripped.endswith('}')):
                             raise WeaveError('%s: proof end: body ends in a tail expression' % label)
-                        at = len(stripped)
+                        else:
+                            at = len(stripped)
                     else:
                         pos = -1
                         start = 0
